@@ -360,13 +360,14 @@ impl LoadBalancingAlgorithm for PowerOfTwo {
                     second = first.take();
                     first = Some((measure, backend));
                 }
-            } else if first.as_ref().unwrap().0 <= measure && measure < second.as_ref().unwrap().0 {
-                second = Some((measure, backend));
-                // other case: we don't change anything
-            } else {
+            } else if measure < first.as_ref().unwrap().0 {
                 second = first.take();
                 first = Some((measure, backend));
+            } else if measure < second.as_ref().unwrap().0 {
+                second = Some((measure, backend));
             }
+            // otherwise this backend is heavier than both tracked candidates:
+            // we don't change anything
         }
 
         // `first` holds the lighter of the two tracked candidates and `second`
